@@ -65,7 +65,7 @@ def tasks(tier):
         # family 2: callbacks per call, decorator left out
         c2 = dict(cfg, handler="call", before_sleep="call", sleeper="call")
         # family 3: no handler, library default sleeper, breaker attached (Policy entries only)
-        c3 = dict(cfg, handler=None, sleeper=None,
+        c3 = dict(cfg, handler="call" if cfg["M"] == 2 else None, sleeper=None,
                   breaker={"threshold": 1, "window": 8, "recovery": 2, "trip_on": ["T", "U", "P"]})
         for first in ALPHA:
             w = 1 if first in ("ok", "x:P", "abort") else 6
